@@ -8,6 +8,7 @@ import (
 	"os"
 	"os/exec"
 	"path/filepath"
+	"syscall"
 	"time"
 
 	"verif/harness/ev"
@@ -213,6 +214,7 @@ func c20Run(c *ev.Ctx) {
 		c.Machinery("VERIF_LZ4C not set (vcheck builds lz4c from the working tree)")
 		return
 	}
+	syscall.Umask(0o022) // the command creates its output files with the input's mode, subject to the umask
 	dir := filepath.Join(ev.VerifDir, ".build", fmt.Sprintf("c20-%d-%d", os.Getpid(), c.Shard))
 	levels := []int{0, 1, 9}
 	if c.Thorough() {
